@@ -169,6 +169,11 @@ static std::vector<Panel> c08_panel() {
   P.push_back({zone("fixed/3600"), 67767976233532799LL /* year INT_MAX+1900 */, 0});
   P.push_back({zone("fixed/0"), 67767976233446400LL - 86400LL * 366 * 2 /* just below tm_year saturation */, 0});
   P.push_back({zone("fixed/0"), -67768040609740800LL /* year INT_MIN+1900 region */, 0});
+  P.push_back({zone("fixed/0"), 3 * 86400LL /* Sunday 1970-01-04 */, 0});
+  P.push_back({zone("fixed/-3600"), 4 * 86400LL + 3599 /* Sunday 23:59:59 locally, Monday in UTC */, 999999999999999LL});
+  P.push_back({zone("fixed/0"), -62135596800LL - 86400LL * 200 /* year 0, mid June */, 5});
+  P.push_back({zone("fixed/0"), 1483228800LL /* 2017-01-01, a Sunday: %U = 01, %W = 00 */, 0});
+  P.push_back({zone("fixed/0"), 1514678400LL /* 2017-12-31, a Sunday: %U = 53 */, 0});
   return P;
 }
 
